@@ -247,6 +247,7 @@ class MiddlewareDoPost(FnCheck):
     prop = 'C13'
     tag = 'S'
     opaque_ok = True
+    exc_attr_nonnull = ('soap_fault',)
     target = f'{MC}:MessageConverterMiddleware.do_post'
     doc = ('do_post: a message that cannot be read is answered with a fault without reaching the dispatcher '
            '(rejected => dispatcher not invoked); every normal result is a (status, reason, body) triple')
